@@ -161,6 +161,24 @@ def case_mm_contracted_axis():
     return None if torch.allclose(_deq(r), ref, atol=1e-3, rtol=1e-3) else f"mm with scales along the contracted dimension is mis-broadcast (max error {float((_deq(r) - ref).abs().max()):.3g})"
 
 
+def case_mm_contracted_axis_right():
+    import optimum.quanto as q
+    torch.manual_seed(1)
+    worst = None
+    for (n, m, p) in ((24, 24, 24), (32, 32, 48), (24, 16, 8)):
+        a = _qa(torch.randn(n, m))
+        rows = torch.randn(m, p) * torch.logspace(-2, 1, m).reshape(m, 1)      # rows of very different magnitude
+        b = q.quantize_weight(rows, q.qint8, 0)                                # scales along the contracted dimension
+        try:
+            r = torch.mm(a, b)
+        except Exception as e:  # noqa
+            return f"mm with a right operand quantized along the contracted dimension raises {exc_name(e)} for {n}x{m} @ {m}x{p}"
+        ref = torch.mm(_deq(a), _deq(b))
+        if not torch.allclose(_deq(r), ref, atol=1e-2, rtol=1e-3):
+            worst = f"mm with a right operand quantized along the contracted dimension is mis-broadcast for {n}x{m} @ {m}x{p} (max error {float((_deq(r) - ref).abs().max()):.3g})"
+    return worst
+
+
 def case_linear_weight_last_axis():
     import optimum.quanto as q
     torch.manual_seed(0)
@@ -206,6 +224,7 @@ CASES = {
     "split-sizes": case_split_sizes,
     "lt-float8": case_lt_float8,
     "mm-contracted-axis": case_mm_contracted_axis,
+    "mm-contracted-axis-right": case_mm_contracted_axis_right,
     "linear-weight-last-axis": case_linear_weight_last_axis,
     "scale-product-underflow-f16": case_scale_product_underflow_f16,
 }
